@@ -40,7 +40,7 @@ WithDflt(f, v) == [f EXCEPT !.dflt = v]
 SubD == Class(DefaultOpts, <<WithDflt(U1("x"), 7), IntF("y", 2, TRUE, "little")>>)
 SubV(x, y) == PktV("C1", <<[n |-> "x", v |-> IntV(x)], [n |-> "y", v |-> IntV(y)]>>)    \* a complete value of class SubD
 
-UV_Smoke == {
+UV_Smoke(zz) == {
     V1(<<U1("a"), IntF("b", 2, TRUE, "little")>>, "full", FALSE),
     V1(<<U1("n"), DataF("d", SzField("n")), DataF("m", SzMarker(<<0>>, FALSE, TRUE))>>, "full", FALSE),
     V1(<<BitsF("h", 3), BitsF("l", 5)>>, "full", TRUE),
@@ -48,7 +48,7 @@ UV_Smoke == {
 }
 
 \* -------------------------------------------------------------------- C02
-U_C02 ==
+U_C02(zz) ==
     {V1(<<IntF("a", n, sg, e), U1("z")>>, "full", FALSE) : n \in {1, 2, 3}, sg \in BOOLEAN, e \in {"default", "little"}}
     \cup {V1(<<U1("n"), DataF("d", md), U1("z")>>, "full", FALSE) :
              md \in {SzConst(0), SzConst(2), SzField("n"), Defer(EBin("mul", EF("n"), EC(2))), Lam(EBin("add", EF("n"), EC(1))),
@@ -69,7 +69,7 @@ U_C02 ==
                  C1 |-> Class(DefaultOpts, <<IntF("x", 2, FALSE, "default"), DataF("d", SzMarker(<<0>>, FALSE, TRUE))>>)], "full", 1, FALSE)}
 
 \* positioned fields, a later-declared one placed before an earlier one; state kept between two packs
-U_C02_Pos ==
+U_C02_Pos(zz) ==
     {V1(<<MvField(IntF("a", 2, FALSE, "default"), [kind |-> "at", arg |-> SzConst(p1), ref |-> "innermost-pkt"]),
           MvField(U1("b"), [kind |-> "at", arg |-> SzConst(p2), ref |-> r]), U1("c")>>, "full", FALSE) :
         p1 \in {2, 3}, p2 \in {0, 1, 5}, r \in {"innermost-pkt", "begins"}}
@@ -79,19 +79,19 @@ U_C02_Pos ==
     \cup {V1(BitFields(<<4, 4>>) \o <<U1("z")>>, "full", TRUE), V1(BitFields(<<3, 10, 3>>), "full", TRUE)}
 
 \* pack side of C03 (every-change subset): fixed runs, a descriptor on a vectorised field, nested packets
-U_C03V == {V1(<<IntF("a", n, sg, e), IntF("b", 2, FALSE, "little"), DataF("d", SzConst(2)), U1("z")>>, "full", FALSE) :
+U_C03V(zz) == {V1(<<IntF("a", n, sg, e), IntF("b", 2, FALSE, "little"), DataF("d", SzConst(2)), U1("z")>>, "full", FALSE) :
               n \in {1, 2, 3}, sg \in BOOLEAN, e \in {"default", "little"}}
           \cup {V1(<<WithDesc(U1("n"), [kind |-> "autolen", of |-> "d"]), IntF("m", 2, FALSE, "default"), DataF("d", SzField("n"))>>, "full", FALSE),
                 VDecl([C0 |-> Class([DefaultOpts EXCEPT !.endian = "little"], <<IntF("a", 2, FALSE, "default"), RefF("s", "C1"), BitsF("h", 4), BitsF("l", 12)>>),
                        C1 |-> Class(DefaultOpts, <<IntF("x", 2, FALSE, "default"), DataF("d", SzMarker(<<0>>, FALSE, TRUE))>>)], "full", 1, FALSE)}
 
 \* -------------------------------------------------------------------- C07 (pack side)
-U_C07V == {V1(BitFields(ws), "full", TRUE) : ws \in {<<4, 4>>, <<3, 5>>, <<1, 7>>, <<1, 6, 1>>, <<8>>}}
+U_C07V(zz) == {V1(BitFields(ws), "full", TRUE) : ws \in {<<4, 4>>, <<3, 5>>, <<1, 7>>, <<1, 6, 1>>, <<8>>}}
           \cup {V1(BitFields(ws), "full", FALSE) : ws \in {<<12, 4>>, <<4, 12>>, <<1, 22, 1>>, <<12, 12>>, <<5, 6, 5>>}}
           \cup {V1(<<U1("pre")>> \o BitFields(<<3, 5>>) \o <<U1("post")>>, "full", FALSE)}
 
 \* -------------------------------------------------------------------- C20
-U_C20 == {EqDecl([C0 |-> Class(DefaultOpts, <<U1("a"), IntF("b", 2, TRUE, "little"), DataF("d", SzField("a"))>>)]),
+U_C20(zz) == {EqDecl([C0 |-> Class(DefaultOpts, <<U1("a"), IntF("b", 2, TRUE, "little"), DataF("d", SzField("a"))>>)]),
           EqDecl([C0 |-> Class(DefaultOpts, <<U1("a"), MvField(U1("b"), [kind |-> "at", arg |-> SzConst(3), ref |-> "innermost-pkt"]), U1("c")>>)]),
           EqDecl([C0 |-> Class(DefaultOpts, <<U1("a"), MvField(DataF("d", SzConst(1)), [kind |-> "shift", arg |-> SzConst(1), ref |-> "current-offset"]),
                                               MvField(U1("c"), [kind |-> "aligned", arg |-> SzConst(4), ref |-> "begins"])>>)]),
@@ -105,7 +105,7 @@ U_C20 == {EqDecl([C0 |-> Class(DefaultOpts, <<U1("a"), IntF("b", 2, TRUE, "littl
                                               MvField(EmF("tail"), [kind |-> "aligned", arg |-> SzConst(4), ref |-> "innermost-pkt"])>>), C1 |-> Sub1])}
 
 \* -------------------------------------------------------------------- C19
-U_C19 ==
+U_C19(zz) ==
     {V1(<<WithDflt(U1("a"), 5), IntF("b", 2, TRUE, "little"), WithDflt(DataF("d", SzConst(2)), <<65, 66>>), DataF("e", SzConst(3)),
           DataF("f", SzField("a"))>>, "subsets", FALSE),
      V1(<<WithDflt(BitsF("h", 3), 5), BitsF("l", 5), U1("z")>>, "subsets", FALSE),
@@ -123,4 +123,14 @@ U_C19 ==
      VDecl([C0 |-> Class(DefaultOpts, <<U1("t"), RefSelF("v", EF("t"), <<[key |-> 0, alt |-> IntF("", 2, FALSE, "default")],
                                                                           [key |-> 1, alt |-> RefF("", "C1")]>>, "chooses", IntV(3)),
                                         DataF("m", SzMarker(<<0>>, FALSE, TRUE)), EmF("tail")>>), C1 |-> SubD], "subsets", 0, FALSE)}
+
+\* universes take a dummy parameter so that TLC does not evaluate all of them at start-up; a profile names the one it explores
+PickUV(n) ==
+    CASE n = "UV_Smoke" -> UV_Smoke(0)
+      [] n = "U_C02" -> U_C02(0)
+      [] n = "U_C02_Pos" -> U_C02_Pos(0)
+      [] n = "U_C03V" -> U_C03V(0)
+      [] n = "U_C07V" -> U_C07V(0)
+      [] n = "U_C20" -> U_C20(0)
+      [] n = "U_C19" -> U_C19(0)
 =============================================================================
